@@ -7,9 +7,12 @@
 //!     (bb-memory PoolAllocator + FixedSizePoolAllocator, bb-elementary BumpAllocator, bb-memory
 //!     OneChunkAllocator, cal shm_allocator::{PoolAllocator, BumpAllocator}) over a guarded,
 //!     deliberately misaligned region, against an interval model of the live allocations.
+//! (c) resizable shared memory level (dynmem.rs): allocate / deallocate / grow histories on the real
+//!     DynamicMemory<PoolAllocator, process-local | posix shared memory> with every allocation strategy.
 //! (b) port level: publish-subscribe with slice payloads and AllocationStrategy::{Static, BestFit,
 //!     PowerOfTwo}; a subscriber holds samples across growth of the data segment.
 
+mod dynmem;
 mod port;
 
 use std::alloc::Layout;
@@ -92,6 +95,7 @@ pub struct Geo {
 pub enum Cfg {
     Alloc(ACfg),
     Port(port::PCfg),
+    Dyn(dynmem::DCfg),
 }
 
 #[derive(Clone, Debug, Serialize, Deserialize)]
@@ -106,6 +110,7 @@ pub enum Op {
     /// bb-elementary BumpAllocator::reset
     Reset,
     Port(port::POp),
+    Dyn(dynmem::DOp),
 }
 
 struct Buf {
@@ -175,6 +180,7 @@ pub struct AShell {
 pub enum Sys {
     Alloc(Box<AShell>),
     Port(Box<port::PSys>),
+    Dyn(Box<dynmem::DSys>),
 }
 
 fn align_up(v: usize, a: usize) -> usize {
@@ -834,7 +840,7 @@ fn alloc_apply(s: &mut ASys, op: &Op) -> Result<(), Fail> {
             s.cursor = 0;
             s.check_memory("reset")
         }
-        Op::Port(_) | Op::Setup { .. } => unreachable!(),
+        Op::Port(_) | Op::Dyn(_) | Op::Setup { .. } => unreachable!(),
     }
 }
 
@@ -1031,11 +1037,12 @@ impl Harness for H {
         "C15"
     }
     fn rule(&self) -> String {
-        "(a) the first operation of every sequence builds the allocator over one of the region geometries of the configuration (start misaligned by 0/1/align-1, room for 0..4 buckets plus a partial one), followed by every sequence of allocate(size in {0,1,b-1,b,b+1} x align in {1,a,2a}) / allocate_zeroed / deallocate(k-th live) / grow / shrink / reset up to the tree depth on the real PoolAllocator, FixedSizePoolAllocator<2|8>, bb BumpAllocator, OneChunkAllocator, cal shm PoolAllocator and shm BumpAllocator for every bucket layout (sizes 1..33 and 100/128/4096 x alignments 1..64 and 4096, including sizes that are not multiples of the alignment), checked after every step against an interval model: inside the region, requested alignment, requested size writable (unique byte pattern per allocation, all live patterns and the guard zones verified after every step), pairwise disjoint, success iff the model has a free bucket / enough room, documented error variant otherwise, everything allocatable again after release. (b) every sequence of loan_slice(len in {1,2,5,9}; quick tier with a dynamic strategy: {1,5,9} / {5,9})+send / receive / drop held sample on a local publish-subscribe service with [u8] or [u64] payload, initial_max_slice_len(1) and AllocationStrategy Static/BestFit/PowerOfTwo: every held sample stays byte-identical across growth of the data segment, samples received after growth are correct, Static refuses a longer loan with ExceedsMaxLoanSize. A distinct state is the canonical model state (live allocations relative to the region start / queue and held samples).".into()
+        "(a) the first operation of every sequence builds the allocator over one of the region geometries of the configuration (start misaligned by 0/1/align-1, room for 0..4 buckets plus a partial one), followed by every sequence of allocate(size in {0,1,b-1,b,b+1} x align in {1,a,2a}) / allocate_zeroed / deallocate(k-th live) / grow / shrink / reset up to the tree depth on the real PoolAllocator, FixedSizePoolAllocator<2|8>, bb BumpAllocator, OneChunkAllocator, cal shm PoolAllocator and shm BumpAllocator for every bucket layout (sizes 1..33 and 100/128/4096 x alignments 1..64 and 4096, including sizes that are not multiples of the alignment), checked after every step against an interval model: inside the region, requested alignment, requested size writable (unique byte pattern per allocation, all live patterns and the guard zones verified after every step), pairwise disjoint, success iff the model has a free bucket / enough room, documented error variant otherwise, everything allocatable again after release. (b) every sequence of loan_slice(len in {1,2,5,9}; quick tier with a dynamic strategy: {1,5,9} / {5,9})+send / receive / drop held sample on a local publish-subscribe service with [u8] or [u64] payload, initial_max_slice_len(1) and AllocationStrategy Static/BestFit/PowerOfTwo: every held sample stays byte-identical across growth of the data segment, samples received after growth are correct, Static refuses a longer loan with ExceedsMaxLoanSize. (c) every sequence of allocate(size in {c, 2c+1, 8c}) / deallocate(k-th live) / grow(k-th live, to the next larger sizes) on the real resizable shared memory DynamicMemory<PoolAllocator> (process-local and posix shared memory; chunk hint c in {8,16}, 1..2 chunks hint; Static / BestFit / PowerOfTwo) with up to 4 live chunks: live chunks pairwise disjoint in memory (also across segments), 8-byte aligned, content of every live chunk intact after every step, grown chunk keeps its content, dynamic strategies never fail, Static refuses what exceeds the hints, everything allocatable again after release. A distinct state is the canonical model state (live allocations relative to the region start / queue and held samples).".into()
     }
     fn configs(&self, tier: Tier) -> Vec<(Cfg, Plan)> {
         // the port-level workers run longest: queue them first
         let mut v: Vec<(Cfg, Plan)> = port::configs(tier).into_iter().map(|(c, p)| (Cfg::Port(c), p)).collect();
+        v.extend(dynmem::configs(tier).into_iter().map(|(c, p)| (Cfg::Dyn(c), p)));
         v.extend(alloc_configs(tier));
         v
     }
@@ -1046,6 +1053,7 @@ impl Harness for H {
                 Ok(Sys::Alloc(Box::new(AShell { cfg: c.clone(), sys: None })))
             }
             Cfg::Port(c) => Ok(Sys::Port(Box::new(port::new_sys(c)?))),
+            Cfg::Dyn(c) => Ok(Sys::Dyn(Box::new(dynmem::new_sys(c)?))),
         }
     }
     fn enabled(&self, s: &Sys) -> Vec<Op> {
@@ -1055,6 +1063,7 @@ impl Harness for H {
                 Some(s) => alloc_enabled(s),
             },
             Sys::Port(s) => port::enabled(s).into_iter().map(Op::Port).collect(),
+            Sys::Dyn(s) => dynmem::enabled(s).into_iter().map(Op::Dyn).collect(),
         }
     }
     fn apply(&self, s: &mut Sys, op: &Op) -> Result<(), Fail> {
@@ -1067,6 +1076,7 @@ impl Harness for H {
             }
             (Sys::Alloc(sh), op) => alloc_apply(sh.sys.as_mut().expect("Setup is the first operation"), op),
             (Sys::Port(s), Op::Port(op)) => port::apply(s, op),
+            (Sys::Dyn(s), Op::Dyn(op)) => dynmem::apply(s, op),
             _ => unreachable!(),
         }
     }
@@ -1077,6 +1087,7 @@ impl Harness for H {
                 None => Ok(()),
             },
             Sys::Port(s) => port::finish(*s),
+            Sys::Dyn(s) => dynmem::finish(*s),
         }
     }
     fn model_key(&self, s: &Sys) -> u64 {
@@ -1089,12 +1100,14 @@ impl Harness for H {
                 }
             },
             Sys::Port(s) => port::model_key(s),
+            Sys::Dyn(s) => dynmem::model_key(s),
         }
     }
     fn nontrivial(&self, s: &Sys) -> bool {
         match s {
             Sys::Alloc(sh) => sh.sys.as_ref().map(|s| !s.live.is_empty() || s.cursor > 0).unwrap_or(false),
             Sys::Port(s) => port::nontrivial(s),
+            Sys::Dyn(s) => dynmem::nontrivial(s),
         }
     }
 }
